@@ -43,9 +43,15 @@ var advHeaders = []string{
 	"Content-Length: 3\r\n\r\nabc",
 	"\r\nabc",
 	"Content-Length: 00000000000000000000003\r\nContent-Type: %M\r\n\r\nabc",
+	// well-formed but unusual: fields after Content-Length, long unknown fields
+	"Content-Length: 5\r\nX-After: yes\r\nContent-Type: %M\r\n\r\nhello",
+	"Content-Type: %M\r\nContent-Length: 5\r\nX-After-1: a\r\nX-After-2: b\r\nX-After-3: c\r\n\r\nhello",
+	"Content-Length: 5\r\nContent-Type: %M\r\nX-Long: %L\r\n\r\nhello",
+	"X-Long: %L\r\nContent-Length: 5\r\nContent-Type: %M\r\n\r\nhello",
+	"Content-Length: 12\r\nContent-Type: %M\r\nX-Pad: %L\r\nX-More: %L\r\n\r\nhello, world",
 }
 
-func encodeRef(fs framingSpec, recs [][]byte) []byte {
+func encodeRef(fs framingSpec, recs [][]byte, vary *rt.Source) []byte {
 	var sb bytes.Buffer
 	for _, rec := range recs {
 		switch fs.Kind {
@@ -53,10 +59,34 @@ func encodeRef(fs framingSpec, recs [][]byte) []byte {
 			sb.Write(rec)
 			sb.WriteByte(byte(fs.Split))
 		case "hdr":
-			if fs.Mime != "" {
-				fmt.Fprintf(&sb, "Content-Type: %s\r\n", fs.Mime)
+			// the documented format fixes neither the order of the fields nor
+			// their spelling, and allows unknown fields: vary all three
+			ct, cl := "Content-Type", "Content-Length"
+			variant := 0
+			if vary != nil {
+				variant = vary.Int("hdrvariant", 8)
 			}
-			fmt.Fprintf(&sb, "Content-Length: %d\r\n\r\n", len(rec))
+			if variant == 6 {
+				ct, cl = "content-type", "CONTENT-LENGTH"
+			}
+			ctLine := ""
+			if fs.Mime != "" {
+				ctLine = fmt.Sprintf("%s: %s\r\n", ct, fs.Mime)
+			}
+			clLine := fmt.Sprintf("%s: %d\r\n", cl, len(rec))
+			switch variant {
+			case 1, 6:
+				sb.WriteString(clLine + ctLine)
+			case 2:
+				sb.WriteString(clLine + "X-Trace: 0123456789abcdef\r\n" + ctLine)
+			case 3:
+				sb.WriteString("X-First: 1\r\n" + ctLine + clLine + "X-Last: 2\r\n")
+			case 4:
+				sb.WriteString(clLine + ctLine + "X-Pad: " + strings.Repeat("p", 200) + "\r\n")
+			default:
+				sb.WriteString(ctLine + clLine)
+			}
+			sb.WriteString("\r\n")
 			sb.Write(rec)
 		case "json":
 			sb.Write(rec)
@@ -84,7 +114,7 @@ func scenarioC12(r *Run) {
 	var recs [][]byte
 	for i := 0; i < n; i++ {
 		l := g.Int("len", 24)
-		if g.Chance("long", 0.08) {
+		if g.Chance("long", 0.2) {
 			l = 4090 + g.Int("len", 12)
 		}
 		seed := uint32(g.Int("content", 1<<16))
@@ -99,7 +129,7 @@ func scenarioC12(r *Run) {
 			recs = append(recs, fill(l, seed, fs.Split))
 		}
 	}
-	stream := encodeRef(fs, recs)
+	stream := encodeRef(fs, recs, g)
 	mutation := "none"
 	w := []int{1, 8, 3, 1, 2, 0, 1}
 	if fs.Kind == "hdr" {
@@ -137,9 +167,12 @@ func scenarioC12(r *Run) {
 		}
 	case 5:
 		h := strings.ReplaceAll(advHeaders[g.Int("advheader", len(advHeaders))], "%M", fs.Mime)
+		if strings.Contains(h, "%L") {
+			h = strings.ReplaceAll(h, "%L", strings.Repeat("x", []int{10, 3000, 4090, 5000}[g.Int("longfield", 4)]))
+		}
 		// splice the adversarial message before, between or after valid messages
 		k := g.Int("spliceat", len(recs)+1)
-		stream = append(append(encodeRef(fs, recs[:k]), h...), encodeRef(fs, recs[k:])...)
+		stream = append(append(encodeRef(fs, recs[:k], g), h...), encodeRef(fs, recs[k:], g)...)
 		mutation = fmt.Sprintf("adversarial header %q spliced in as message %d", h, k)
 		r.Fault("adversarial-header")
 	case 6:
